@@ -566,8 +566,8 @@ example : ([0, 0, 1, 0, 0] : List ‚Ñù).length = 2 * 1 * (2 / Nat.gcd 2 1) + 1 ‚à
   constructor <;> simp
 
 /-- `tnew_uniform`: the documentation example `t = [0, 1, 5, 6]`, `sr = 1` -/
-example : (mkInitialTnew [0, 1, 5, 6] 1).map (fun r => (r.tnew, r.tp, r.align, r.delt)) =
-    some ([0, 1, 2, 3, 4, 5, 6], [0, 1, 2, 3], true, 0) := by decide +kernel
+example : (mkInitialTnew [0, 1, 5, 6] 1).map (fun r => (r.tnew, r.tp, r.align, r.delt, r.mismatch)) =
+    some ([0, 1, 2, 3, 4, 5, 6], [0, 1, 2, 3], true, 0, false) := by decide +kernel
 
 /-- `edges_partition_linear_tolerance` / `edges_partition_log`: inhabited hypotheses -/
 example : isLinTol ([1, 2, 3] : List ‚Ñù) = true ‚àß diffs ([1, 2, 3] : List ‚Ñù) = [1, 1] := by
